@@ -368,7 +368,7 @@ class RawVoltageBackend(object):
         header_lines = 0
         for key, value in header_dict.items():
             value_is_encoded = (isinstance(value, str)
-                                and value[0] == "'")
+                                and value.startswith("'"))
             line = raw_utils.format_header_line(key, 
                                                 value,
                                                 as_strings=value_is_encoded)
